@@ -81,8 +81,7 @@ type route struct {
 	// composite routes: the argument expression and call form of the call that binds the parameter
 	Arg  *RV
 	Form string
-	// composite route (a call result handed straight to a by-value boundary): enumerated with
-	// flat mutations only — nested writes leak along every route (known family leak:<route>:nested…)
+	// composite route (a call result handed straight to a by-value boundary)
 	Composite bool
 }
 
@@ -304,9 +303,6 @@ func nestedMutation(name string) bool { return len(name) > 6 && name[:6] == "nes
 
 // triple builds the enumerated case (shape × route × mutation × side).
 func triple(s *shape, r *route, mu *mutation, side string) *Case {
-	if r.Composite && nestedMutation(mu.Name) {
-		return nil
-	}
 	ops, orig, cp := r.Setup(s)
 	target := cp
 	if side == "orig" {
@@ -536,12 +532,9 @@ func (g *gen) program(n int) []Op {
 			default:
 				r = RInt(g.r.Intn(10))
 			}
+			// (a copy of an array stored into one of its own inner arrays — `$a[0][] = $a` — was a
+			// cyclic value before C06-6, fatal to print: finding cycle:nested-self-store, fixed)
 			nm = g.maybeInner(nm)
-			if nm.Depth() > 0 && (r.K == "rd" || r.K == "call") {
-				// a copy of an array stored into one of its own inner arrays is a cyclic value on
-				// this tree (known finding cycle:nested-self-store); printing it kills the process
-				r = RInt(g.r.Intn(10))
-			}
 			if g.r.Chance(30) {
 				ops = append(ops, app(nm, r))
 			} else {
@@ -587,15 +580,16 @@ func (g *gen) program(n int) []Op {
 			}
 			var inner []Op
 			for i := 0; i < g.r.Range(1, 3); i++ {
+				px := g.maybeInner(V(x)) // nested mode: the callee may write into an inner array of its parameter
 				switch g.r.Intn(4) {
 				case 0:
-					inner = append(inner, app(V(x), RInt(g.r.Intn(10))))
+					inner = append(inner, app(px, RInt(g.r.Intn(10))))
 				case 1:
-					inner = append(inner, setI(V(x), g.key(), RInt(g.r.Intn(10))))
+					inner = append(inner, setI(px, g.key(), RInt(g.r.Intn(10))))
 				case 2:
-					inner = append(inner, Op{K: "meth", B: V(x), M: vh.Pick(g.r, []string{"push", "pop", "shift"}), N: g.r.Intn(10)})
+					inner = append(inner, Op{K: "meth", B: px, M: vh.Pick(g.r, []string{"push", "pop", "shift"}), N: g.r.Intn(10)})
 				case 3:
-					inner = append(inner, Op{K: "unset", B: V(x), Key: kp(g.key())})
+					inner = append(inner, Op{K: "unset", B: px, Key: kp(g.key())})
 				}
 			}
 			ops = append(ops, Op{K: "call", X: x, Y: y, Inner: inner, Arg: g.readOf(src), Form: vh.Pick(g.r, callForms)})
